@@ -99,6 +99,25 @@ def run(ctx, groups, oracle_only=False):
     return recs
 
 
+def whitespace_family():
+    """every head of depth <= 2 over {CharsNotIn, Literal, Word, Empty} x {Opt, Group, NotAny, FollowedBy, ZeroOrMore} x {And, MatchFirst, Or}
+    as the FIRST element of a sequence (directly, inside a Group, through a Forward): the shapes in which a composite hands its
+    whitespace flag on to an enclosing element; inputs with and without leading whitespace"""
+    NI, W_ = ("notin", ","), ("word", "ab")
+    heads = gen.enum_depth(2, leaves=[NI, gen.A, W_, ("empty",)], unary=["opt", "group", "not", "fb", "star"], binary=["and", "mf", "or"])
+    inputs = [" b,", "b,", " a,", " ,", "  ab ,a", "a ,", "", " "]
+    groups = []
+    for h in heads:
+        if h[0] == "star" and gen.nullable(h[1], {}):
+            continue
+        tail = ("lit", ",")
+        groups.append((("and", h, tail), {}, inputs, [("none",)], [("parse", False), ("peg",)]))
+        groups.append((("and", ("group", h), tail), {}, inputs, [("none",)], [("parse", False), ("peg",)]))
+        groups.append((("and", ("fwd", 1), tail), {1: h}, inputs, [("none",)], [("parse", False), ("peg",)]))
+        groups.append((("mf", ("and", ("opt", h), tail), h), {}, inputs, [("none",)], [("parse", False), ("peg",)]))
+    return groups
+
+
 EACH_POOL = [("lit", "x"), ("lit", "c"), ("word", "12"), ("and", ("opt", ("lit", "a")), ("opt", ("lit", "b")), ("lit", "c")),
              ("and", ("lit", "a"), ("and", ("opt", ("lit", "b")), ("opt", ("lit", "c")))), ("and", ("and", ("opt", ("lit", "a")), ("opt", ("lit", "b"))), ("lit", "y")),
              ("opt", ("lit", "z")), ("opt", ("word", "12")), ("star", ("lit", "s")), ("plus", ("lit", "p")), ("group", ("and", ("lit", "g"), ("opt", ("lit", "h")))),
@@ -167,6 +186,7 @@ def correspond(ctx):
         opts=dict(names=False, actions=False, stops=False, fwd=True, extra=True, ws=False),
         modes=[("none",)], entries=[("parse", False), ("peg",)], inputs_per=5,
         enum_depth=2, enum_inputs=gen.enum_inputs(2 if not ctx.thorough else 3, "ab, ") + ["a b", "(a)", "ab ab", "((a) b)", "a,b"])
+    groups += whitespace_family()
     recs = run(ctx, groups)
     each_family(ctx)
     for r in [x for x in recs if x["entry"][0] == "parse"][200:203]:
